@@ -634,7 +634,7 @@ Proof.
     apply Hsame. intros tk s2. cbn [sv_sessions set_sessions]. destruct (decide ((session, 0%N) = tk)) as [<-|Hne].
     + rewrite lookup_insert. intros [= <-]. eauto.
     + rewrite lookup_insert_ne by exact Hne. eauto.
-  - destruct parsed; cbn [entry_result]; apply Hsame; eauto.
+  - destruct (config_in_force _ _ _); cbn [entry_result]; apply Hsame; eauto.
 Qed.
 
 (* ---- services commands are out of reach of a session that is not a services link --------------------------------- *)
